@@ -198,6 +198,36 @@ def _none_only_when_empty(ctx, fx, fn):
            detail="exits that are neither Some(..) nor the None of an empty queue: %s" % bad)
 
 
+def r20_4(ctx, fx):
+    """no single message exceeds the limit *and* every block is sent: the batch is also cut by an upper bound of its encoded size.
+    send_response drops a message whose encoding exceeds MAX_MESSAGE_SIZE, so a batch cut by payload bytes alone (many tiny blocks:
+    the CID prefix and protobuf framing dominate) would be discarded as a whole with Ok(()).  In extract_next_batch the count is
+    incremented only on the edge where an accumulated size that adds a positive per-block overhead to each payload length stays
+    `<= MAX_MESSAGE_SIZE` (or the batch is still empty)."""
+    fn = ctx.fn(fx, BS + "extract_next_batch", "R20.4")
+    if fn is None:
+        return
+    mm = fx.const(BS + "config::MAX_MESSAGE_SIZE")
+    is_b = lambda f, o: any(r == ("const", BS + "config::MAX_MESSAGE_SIZE") for r in f.roots(o)) or (isinstance(mm, int) and f.const_value(o) == mm)
+    is_q = lambda f, o: has_add(f, o) and bool(len_calls_in(f, o)) and not is_b(f, o)
+    facts = guards.edge_facts(fn, is_q, is_b)
+    ctx.ob("R20.4", "extract_next_batch/batch-also-cut-by-encoded-size-vs-MAX_MESSAGE_SIZE", bool(facts), site=fn.site(fn.entry), cfg=fx.cfg,
+           detail="comparisons of an accumulated size with MAX_MESSAGE_SIZE: %d" % len({cn for *_, cn in facts}))
+    if not facts:
+        return
+    # the compared quantity carries a per-block overhead: a positive constant (or a callee computing the encoded length) besides len()
+    over = False
+    for cn in {cn for *_, cn in facts}:
+        at = fn.stmt(cn) if not fn.is_term(cn) else None
+        ops = [at["rv"]["a"], at["rv"]["b"]] if at and "rv" in at else []
+        for o in ops:
+            if is_q(fn, o):
+                rs = guards.rootstrs(fn, o)
+                consts = [fx.const(x[6:]) if not x[6:].lstrip("-").isdigit() else int(x[6:]) for x in rs if x.startswith("const:")]
+                over = over or any(isinstance(v, int) and v >= 1 for v in consts) or any(x.startswith("call:") and not re.search(r"::len$", x) for x in rs)
+    ctx.ob("R20.4", "extract_next_batch/encoded-size-adds-a-positive-per-block-overhead", over, site=fn.site(fn.entry), cfg=fx.cfg)
+
+
 def r20_3(ctx, fx):
     mm = fx.const(BS + "config::MAX_MESSAGE_SIZE")
     mb = fx.const(BS + "config::MAX_BATCH_SIZE")
@@ -289,5 +319,6 @@ def run(ctx):
     r20_1(ctx, fx)
     r20_2(ctx, fx)
     r20_3(ctx, fx)
+    r20_4(ctx, fx)
     ctx.assume("multihash_codetable::Code::digest computes the named hash of its input; Multihash::wrap/Cid::new only validate sizes/versions")
     ctx.assume("VecDeque::drain(..n) yields the first n elements in order")
